@@ -305,6 +305,7 @@ def run(ctx):
             "re-establishes on reset) is never executed",
         )
     ctx.attempt(rebuild_before_features, ctx, lc, cone)
+    ctx.attempt(_no_construction_snapshots, ctx, lc, cone)
 
     # ---------------------------------------------------------------- R12.b
     ctx.attempt(reset_order, ctx, lc, cone, obs, disp, "reset", "R12.b")
@@ -377,6 +378,22 @@ def run(ctx):
                     continue
                 for w in lc.attr_writes(m, c):
                     if w.attr == src_attr:
+                        if w.fi is not m:
+                            # written by a shared step (`_use_graph(graph, as_initial=False)`): only if the
+                            # written-out method - literal flags decided - still stores it
+                            try:
+                                mf = ctx.norm.flat(m, depth=3)
+                                still = any(
+                                    isinstance(x, (ast.Assign, ast.AugAssign, ast.AnnAssign)) and any(
+                                        isinstance(t, ast.Attribute) and t.attr == src_attr and ast.unparse(t.value) == m.params[0]
+                                        for t in (x.targets if isinstance(x, ast.Assign) else [x.target])
+                                    )
+                                    for x in own_nodes(mf.node)
+                                )
+                            except AnalysisError:
+                                still = True
+                            if not still:
+                                continue
                         chk.violation(
                             "R12.d", f"{c.qualname}.{mname}", w.event.node,
                             f"the pristine copy self.{src_attr} is modified after construction ({w.text})",
@@ -443,6 +460,49 @@ def reset_order(ctx, lc, cone, obs, disp, phase, rule):
                         loc=f.loc(site), path=verdict if isinstance(verdict, list) else [],
                     )
     return n_reads
+
+
+def _no_construction_snapshots(ctx, lc, cone):
+    """R12.a, another way to fail it: ``reset`` re-establishes an attribute, but
+    from a value the constructor read off the dispatcher's *mutable* state and
+    put aside (`self._initial_makespan = dispatcher.schedule.makespan()` ...
+    `reset: self.current_makespan = self._initial_makespan`).  A freshly
+    constructed observer reads the state as it is now (after the reset: empty);
+    the snapshot is that of the moment the observer was attached."""
+    chk, repo = ctx.chk, ctx.repo
+    for c in cone:
+        rst = repo.method(c, "reset")
+        init = repo.method(c, "__init__")
+        if rst is None or init is None or isinstance(rst.node, ast.Lambda) or rst.cls is None:
+            continue
+        if rst.cls is not c and c.methods.get("reset") is None and c.methods.get("__init__") is None:
+            continue  # inherited unchanged: judged at the class that defines it
+        try:
+            rf = ctx.norm.flat(rst, depth=2)
+        except AnalysisError:
+            rf = rst
+        me = rst.params[0] if rst.params else "self"
+        for n in own_nodes(rf.node):
+            if not (isinstance(n, ast.Assign) and len(n.targets) == 1 and isinstance(n.targets[0], ast.Attribute) and ast.unparse(n.targets[0].value) == me):
+                continue
+            v = n.value
+            if not (isinstance(v, ast.Attribute) and ast.unparse(v.value) == me and v.attr != n.targets[0].attr):
+                continue
+            srcs = [(f, val) for f, val in lc.attr_sources(c, v.attr) if val is not None]
+            if not srcs or any(f.name != "__init__" for f, _ in srcs):
+                continue  # (also) written outside the constructor: not a construction-time snapshot
+            for f, val in srcs:
+                t = ctx.norm.xtext(f, val)
+                live = ("dispatcher." in t or "dispatcher)" in t) and "schedule" in t and "(" in t
+                if live:
+                    chk.violation(
+                        "R12.a", rst, n,
+                        f"{c.name}.reset re-establishes `self.{n.targets[0].attr}` from `self.{v.attr}`, which the constructor set to `{t[:70]}` - the "
+                        "dispatcher's state at the moment the observer was attached. A freshly constructed observer reads the state as it is "
+                        "after the reset; an observer attached to a dispatcher that had already scheduled operations keeps that old value",
+                        loc=rf.loc(n),
+                    )
+                    break
 
 
 def _acquired_before_subscribe(ctx, a, site, sub, cone):
@@ -546,9 +606,16 @@ def dispatcher_reset(ctx, lc, disp, rule):
     # empty-schedule expression agreement between __init__ and reset
     e_init = [nd.value for nd in own_nodes(s_init.node) if isinstance(nd, ast.Assign) and isinstance(nd.targets[0], ast.Name) and nd.targets[0].id == "schedule"]
     e_rst = [nd.value for nd in own_nodes(s_rst.node) if isinstance(nd, ast.Assign) and isinstance(nd.targets[0], ast.Attribute) and nd.targets[0].attr in ("schedule", schedule_attr(ctx))]
+    if not e_init:
+        # the empty schedule may be stored directly (`self._schedule = <empty>`), not through a local
+        e_init = [
+            nd.value for nd in own_nodes(s_init.node)
+            if isinstance(nd, ast.Assign) and isinstance(nd.targets[0], ast.Attribute) and nd.targets[0].attr in ("schedule", schedule_attr(ctx))
+            and not (isinstance(nd.value, ast.Name) and nd.value.id in s_init.params)
+        ]
     if e_init and e_rst:
-        a = ast.unparse(e_init[0]).replace("self.instance", "instance")
-        b = ast.unparse(e_rst[0]).replace("self.instance", "instance")
+        a = ctx.norm.xtext(s_init, e_init[0]).replace("self.instance", "instance")
+        b = ctx.norm.xtext(s_rst, e_rst[0]).replace("self.instance", "instance")
         if a == b:
             chk.ok(rule, sched.qualname, s_rst.loc(), "empty schedule built by the same expression in __init__ and reset")
         else:
@@ -594,11 +661,56 @@ def dispatcher_reset(ctx, lc, disp, rule):
         init_f, reset_f = ctx.norm.flat(init, depth=3), ctx.norm.flat(reset, depth=3)
     except AnalysisError:
         init_f, reset_f = init, reset
+    stored_params = {}
     for nd in own_nodes(init_f.node):
         tg = nd.targets if isinstance(nd, ast.Assign) else [nd.target] if isinstance(nd, ast.AnnAssign) and nd.value is not None else []
         for t in tg:
             if isinstance(t, ast.Attribute) and ast.unparse(t.value) == "self":
                 iv[t.attr] = nd.value
+                if isinstance(nd.value, ast.Name) and nd.value.id in init.params:
+                    stored_params[t.attr] = nd.value.id
+                elif isinstance(nd.value, ast.Attribute) and ast.unparse(nd.value.value) == "self" and nd.value.attr in stored_params:
+                    stored_params[t.attr] = stored_params[nd.value.attr]  # a second home of the same argument
+    for _pass in range(3):  # second homes, whatever order the statements are met in
+        for nd in own_nodes(init_f.node):
+            if isinstance(nd, (ast.Assign, ast.AnnAssign)) and nd.value is not None and isinstance(nd.value, ast.Attribute) \
+                    and ast.unparse(nd.value.value) == "self" and nd.value.attr in stored_params:
+                for t in (nd.targets if isinstance(nd, ast.Assign) else [nd.target]):
+                    if isinstance(t, ast.Attribute) and ast.unparse(t.value) == "self":
+                        stored_params.setdefault(t.attr, stored_params[nd.value.attr])
+    # an attribute that only ever holds a constructor argument (`self.instance`, a copy of it kept
+    # by a state record) reads as that argument - unless some other method assigns it
+    import re as _re
+
+    def _same_home(v):
+        # re-assigned from another home of the same constructor argument: no change
+        return isinstance(v, ast.Attribute) and ast.unparse(v.value) == "self" and v.attr in stored_params
+
+    def _flat_or_raw(m_):
+        try:
+            return ctx.norm.flat(m_, depth=3)
+        except Exception:
+            return m_
+
+    # judged on the written-out public methods (a private step stores whatever its caller hands it)
+    reassigned = {
+        t.attr for m0_ in list(disp.methods.values()) + list(disp.setters.values())
+        if m0_ is not init and not isinstance(m0_.node, ast.Lambda) and not (m0_.name.startswith("_") and not m0_.name.startswith("__"))
+        for m_ in [_flat_or_raw(m0_)]
+        for x in own_nodes(m_.node) if isinstance(x, (ast.Assign, ast.AugAssign, ast.AnnAssign))
+        for t in (x.targets if isinstance(x, ast.Assign) else [x.target])
+        if isinstance(t, ast.Attribute) and ast.unparse(t.value) == "self"
+        and not (isinstance(x, (ast.Assign, ast.AnnAssign)) and _same_home(x.value) and stored_params.get(t.attr) == stored_params.get(x.value.attr))
+    }
+    _base_norm = norm_init
+
+    def norm_init(s, _b=_base_norm):  # noqa: F811
+        s = _b(s)
+        for attr_, par_ in stored_params.items():
+            if attr_ not in reassigned:
+                s = _re.sub(r"(?<![A-Za-z0-9_.])self\." + _re.escape(attr_) + r"(?![A-Za-z0-9_])", par_, s)
+        return s
+
     n_cmp = 0
     for nd in own_nodes(reset_f.node):
         if isinstance(nd, ast.Assign):
@@ -800,7 +912,42 @@ def path_reset_cover(ctx, cls, upd, rst, rule, label, skip=(), also=()):
                 if any(("=" + t) in uatoms and uatoms["=" + t] != v for t, v in ratoms.items()):
                     continue
                 if all(ratoms.get(t, v) == v for t, v in uatoms.items() if not t.startswith("=")):
-                    conds = [f"{t} is {v}" for t, v in ratoms.items()] or ["(an early exit in an inlined callee)"]
+                    from .common import path_atoms as _pa
+                    from ..baseline_api import BASELINE_ATTRS as _BA
+                    import re as _re2
+
+                    inner_atoms = dict(ratoms)
+                    if not inner_atoms:
+                        try:
+                            inner_atoms = _pa(ctx, rp.events)
+                        except Exception:
+                            inner_atoms = {}
+                    owners_ = {cls.name} | {q_.rsplit(".", 1)[-1] for q_ in also}
+                    known_ = set().union(*[set(_BA.get(o_, ())) for o_ in owners_])
+                    new_state = sorted({
+                        a_ for t_ in inner_atoms for a_ in _re2.findall(r"\.(_[A-Za-z][A-Za-z0-9_]*)", t_) if a_ not in known_
+                    })
+                    # the guard compares the attribute's own storage with a value (`<empty> == self.schedule._schedule`): "already there"
+                    own_storage = _re2.compile(r"^self\." + _re2.escape(attr) + r"(\._[A-Za-z0-9_]+)?$")
+                    if any(
+                        v_ is True and " == " in t_ and any(own_storage.match(side.strip()) for side in t_.split(" == "))
+                        for t_, v_ in inner_atoms.items()
+                    ):
+                        continue
+                    # a dirty flag the update paths set themselves (`self._modified = True` where they mutate) is
+                    # judged by the reachability test above: a writer that forgets it is a violation
+                    flag_kept = any(("=" + t_) in ua_ for t_ in inner_atoms for _a, ua_, _p in writers)
+                    if (not inner_atoms or new_state) and not flag_kept:
+                        # the path leaves early under a condition on bookkeeping the pinned tree does not have
+                        # (`if not self._makespan: return` in Schedule.reset), or under one that is not visible at
+                        # all: whether it implies the attribute is already in its initial state is not decided.
+                        # (A condition over pinned queries - `makespan() == 0` - is judged: it is no test of the attribute.)
+                        raise AnalysisError(
+                            f"{label}: a path of {rst.name} returns early without touching `self.{attr}`"
+                            + (f" under a condition on `{new_state[0]}`, bookkeeping the pinned tree does not have" if new_state else " under a condition that is not visible at this level")
+                            + "; whether the attribute is already in its initial state there is not decided"
+                        )
+                    conds = [f"{t} is {v}" for t, v in (ratoms or inner_atoms).items()] or ["(an early exit in an inlined callee)"]
                     last = rp.events[-1] if rp.events else None
                     chk.violation(
                         rule, f"{cls.qualname}.{rst.name}", last.node if last is not None else None,
